@@ -73,10 +73,10 @@ class Controller:
 
 
 class Gate:
-    __slots__ = ("label", "channel", "fut", "seq")
+    __slots__ = ("label", "channel", "fut", "seq", "prio")
 
-    def __init__(self, label, channel, fut, seq):
-        self.label, self.channel, self.fut, self.seq = label, channel, fut, seq
+    def __init__(self, label, channel, fut, seq, prio=0):
+        self.label, self.channel, self.fut, self.seq, self.prio = label, channel, fut, seq, prio
 
 
 class OrderedTaskSet(set):
@@ -179,10 +179,14 @@ class VLoop(asyncio.BaseEventLoop):
         return fut
 
     # ---- environment ------------------------------------------------------------------------
-    def gate(self, label, channel=None) -> asyncio.Future:
-        """A future completed by the environment.  channel=None: free gate; otherwise FIFO."""
+    def gate(self, label, channel=None, prio=0) -> asyncio.Future:
+        """A future completed by the environment.  channel=None: free gate; otherwise FIFO.
+
+        Canonical option order: ready work, heads of FIFO channels (channel creation order), free gates
+        by (prio, creation order), next timer.  Harness drivers use prio>0 ("act when the system under
+        test can do nothing else")."""
         fut = self.create_future()
-        self.gates.append(Gate(label, channel, fut, next(self._gate_seq)))
+        self.gates.append(Gate(label, channel, fut, next(self._gate_seq), prio))
         return fut
 
     def log(self, ev):
@@ -199,6 +203,7 @@ class VLoop(asyncio.BaseEventLoop):
             opts.append(("r", None))
         seen_channels = set()
         stale = False
+        free = []
         for g in self.gates:
             if g.fut.done():
                 stale = True
@@ -207,7 +212,13 @@ class VLoop(asyncio.BaseEventLoop):
                 if g.channel in seen_channels:
                     continue
                 seen_channels.add(g.channel)
-            opts.append(("g", g))
+                opts.append(("g", g))
+            else:
+                free.append(g)
+        if free:
+            if len(free) > 1:
+                free.sort(key=lambda g: (g.prio, g.seq))
+            opts.extend(("g", g) for g in free)
         if stale:
             self.gates = [g for g in self.gates if not g.fut.done()]
         # drop cancelled timers at the head
